@@ -108,7 +108,7 @@ def run_job(job):
 
 def main(chk):
     quick = chk.tier == "quick"
-    n = 64 if quick else 1200
+    n = 200 if quick else 1600
     jobs = [{"id": "j%d" % i, "seed": job_seed(chk.seed, "C05", i), "queries": 14 if quick else 24} for i in range(n)]
     chk.run_jobs(jobs, budget_s=300 if quick else 3000)
     return chk.finish(
